@@ -204,6 +204,7 @@ var c32Tokens = []AssetID{
 // c32Gen draws a transaction that is valid for every other rule, with
 // redeemers (mostly), and a collateral configuration around the thresholds.
 func c32Gen(rt *rapid.T, era Era) (*Case, bool) {
+	rec32Class = ""
 	invalid := rapid.IntRange(0, 4).Draw(rt, "isValidTrue") != 0 // IsValid=false lets the whole rule list pass without running Plutus
 	noRedeemers := rapid.IntRange(0, 19).Draw(rt, "noRedeemers") == 0
 	if noRedeemers {
@@ -382,6 +383,17 @@ func c32Gen(rt *rapid.T, era Era) (*Case, bool) {
 	if !sumIn.IsUint64() {
 		sumIn.SetUint64(^uint64(0) >> 1)
 	}
+	// the return drawn RELATIVE to the collateral inputs, over the whole range:
+	// the inputs alone cover the threshold, the return takes away nothing / just
+	// too much / everything / more than there is (negative balance)
+	if hasRet && ceil.IsUint64() && ceil.Uint64() < 1<<62 && rapid.IntRange(0, 2).Draw(rt, "retRelative") == 0 {
+		thr := ceil.Uint64()
+		in := thr + rapid.Uint64Range(0, 5_000_000).Draw(rt, "retRelInputs")
+		retCoin = c32ReturnCandidates(in, thr)[rapid.IntRange(0, 10).Draw(rt, "retRelWhich")]
+		tx.CollRet.V.Coin = retCoin
+		sumIn.SetUint64(in)
+		rec32Class = fmt.Sprintf("return_vs_inputs:%s", map[int]string{-1: "below", 0: "equal", 1: "above"}[cmpU(retCoin, in)])
+	}
 	if nColl > 0 {
 		rest := sumIn.Uint64()
 		for i := 0; i < nColl-1; i++ {
@@ -399,6 +411,10 @@ func c32Gen(rt *rapid.T, era Era) (*Case, bool) {
 		if nColl == 0 {
 			b.SetInt64(0)
 		}
+		if b.Sign() < 0 {
+			// a negative balance cannot be declared: whatever is declared is inconsistent
+			b.SetUint64(rapid.Uint64Range(0, 2).Draw(rt, "totalCollOfNegative"))
+		}
 		tx.TotalColl = u64p(b.Uint64())
 		if rapid.IntRange(0, 9).Draw(rt, "totalCollWrong") == 0 {
 			tx.TotalColl = u64p(b.Uint64() + 1)
@@ -409,7 +425,7 @@ func c32Gen(rt *rapid.T, era Era) (*Case, bool) {
 
 func TestC32(t *testing.T) {
 	rec := evi.New(t, "C32", evi.Exploration,
-		"harness-built, signed, balanced Alonzo/Babbage/Conway/Dijkstra transactions with redeemers + Plutus witness + script data hash (IsValid=false in 4 of 5 cases so that the whole rule list can pass without executing Plutus), decoded by the library; collateral: 0..max+3 inputs, percentage {0..2, 100, 150, 101..199, 1..1000}, balance in {floor(fee*pct/100), ceil, floor-1, ceil+1, inputs-suffice-but-balance-after-return-does-not, tiny, ample}, tokens on collateral {none, returned exactly, not returned, partly returned, extra in return}; each case through the era's four single collateral rules and the full UtxoValidationRules (VerifyTransaction); oracle (one-directional): library accepts => reference conditions hold. non-trivial = has redeemers and the full list or the insufficient-collateral rule was evaluated with >=1 collateral input; distinct by (era, fee, pct, collateral coins/tokens, return, max, n)")
+		"harness-built, signed, balanced Alonzo/Babbage/Conway/Dijkstra transactions with redeemers + Plutus witness + script data hash (IsValid=false in 4 of 5 cases so that the whole rule list can pass without executing Plutus), decoded by the library; collateral: 0..max+3 inputs, percentage {0..2, 100, 150, 101..199, 1..1000}, balance in {floor(fee*pct/100), ceil, floor-1, ceil+1, inputs-suffice-but-balance-after-return-does-not, tiny, ample}, collateral return relative to the inputs {0, 1, inputs-threshold-1..+1, inputs-1, inputs, inputs+1, 2*inputs, 2^63, 2^64-1} (signed balance, may be negative) with / without a consistent / inconsistent total_collateral, tokens on collateral {none, returned exactly, not returned, partly returned, extra in return}; each case through the era's four single collateral rules and the full UtxoValidationRules (VerifyTransaction); oracle (one-directional): library accepts => reference conditions hold. non-trivial = has redeemers and the full list or the insufficient-collateral rule was evaluated with >=1 collateral input; distinct by (era, fee, pct, collateral coins/tokens, return, max, n)")
 	defer rec.Finish()
 	rec.Assume("x/crypto ed25519+blake2b trusted; UTxO entries of collateral inputs are decoded by the library's output decoders from harness-encoded bytes",
 		"'runs scripts' = the witness set has at least one redeemer (Alonzo feesOK); for Dijkstra IsValid=false is applied on the decoded transaction the way the block decoder applies it",
@@ -425,6 +441,9 @@ func TestC32(t *testing.T) {
 	rec.Check(func(rt *rapid.T) {
 		era := []Era{Alonzo, Babbage, Conway, Dijkstra}[rapid.IntRange(0, 3).Draw(rt, "era")]
 		c, invalid := c32Gen(rt, era)
+		if rec32Class != "" {
+			rec.Class(rec32Class)
+		}
 		c32Evaluate(rec, c, invalid, func(key, what string, cs any) { rec.Fail(rt, key, what, cs) })
 	})
 }
@@ -516,6 +535,24 @@ func c32Scenarios(era Era) []*Case {
 		out = append(out, mk(150, 3, []uint64{a}, 0, false))
 	}
 	if era >= Babbage {
+		// the collateral return relative to the collateral inputs over the whole
+		// range, without / with a consistent / with an inconsistent total_collateral
+		for _, coll := range [][]uint64{{5_000_000}, {2_000_000, 3_000_000}} {
+			const in, thr = 5_000_000, 450_002
+			for _, ret := range c32ReturnCandidates(in, thr) {
+				for tc := 0; tc < 3; tc++ {
+					c := mk(150, 3, coll, 1, false)
+					c.Tx.CollRet.V.Coin = ret
+					switch tc {
+					case 1: // consistent where a balance exists, else the nearest thing (0)
+						c.Tx.TotalColl = u64p(uint64(max(int64(in)-int64(min(ret, 1<<62)), 0)))
+					case 2:
+						c.Tx.TotalColl = u64p(thr + 7)
+					}
+					out = append(out, c)
+				}
+			}
+		}
 		// two asset names under one policy, split across two collateral inputs
 		multi := func(ret []AQ) *Case {
 			c := mk(150, 3, []uint64{3_000_000, 3_000_000}, 2_000_000, false)
@@ -604,6 +641,10 @@ func c32Evaluate(rec *evi.Recorder, c *Case, invalid bool, report func(key, what
 		}
 		if tx.CollRet != nil {
 			rec.Class("has_collateral_return")
+			rec.Class(fmt.Sprintf("balance_sign=%d", v.Bal.Sign()))
+			if tx.TotalColl != nil {
+				rec.Class(fmt.Sprintf("balance_sign=%d:total_collateral_declared", v.Bal.Sign()))
+			}
 		}
 		if !v.Sufficient && v.NColl > 0 {
 			rec.Class("insufficient_cause_if_accepted:" + c32InsufficientCause(v))
@@ -715,6 +756,38 @@ func c32HistoryTx(era Era) ledger.Transaction {
 	}
 	c32HistCache[era] = dtx
 	return dtx
+}
+
+// rec32Class carries the class label of the relative-return draw of the case
+// being generated to the evaluation (reset by c32Gen).
+var rec32Class string
+
+func cmpU(a, b uint64) int {
+	switch {
+	case a < b:
+		return -1
+	case a > b:
+		return 1
+	}
+	return 0
+}
+
+// c32ReturnCandidates: collateral-return coin relative to the sum of the
+// collateral inputs (in) and the threshold thr = ceil(fee*pct/100), in >= thr.
+func c32ReturnCandidates(in, thr uint64) []uint64 {
+	sub := func(a, b uint64) uint64 {
+		if a < b {
+			return 0
+		}
+		return a - b
+	}
+	add := func(a, b uint64) uint64 {
+		if a+b < a {
+			return ^uint64(0)
+		}
+		return a + b
+	}
+	return []uint64{0, 1, sub(sub(in, thr), 1), sub(in, thr), add(sub(in, thr), 1), sub(in, 1), in, add(in, 1), add(in, in), 1 << 63, ^uint64(0)}
 }
 
 func cmpInt(a, b int) int {
